@@ -127,7 +127,7 @@ Qed.
 Lemma stop_frame s t h a c s' evs :
   thr s t = TStopRead h a \/ thr s t = TStopCall h a -> step s (LT t c) = Some (s', evs) ->
   (forall h', h' <> h -> hs s' h' = hs s h')
-  /\ (hs s' h = hs s h \/ hs s' h = hs s h <| h_cancel := true |>).
+  /\ (hs s' h = hs s h \/ hs s' h = hs s h <| h_cancel := true |> <| h_stopreq := true |>).
 Proof.
   intros [E|E] X; simpl in X; rewrite E in X; destruct c; try discriminate X; destr X; injection X as <- _; simpl.
   all: try (split; [intros; reflexivity|left; reflexivity]).
